@@ -1084,7 +1084,7 @@ impl Hist {
                 let auth = r.pick(&[0u8, 0, 0, 0, 0, 0, 1, 2]);
                 format!("H xliqt {} {} {} {} {} {} {} {}", id, amt(r), amt(r), minp, maxp, fa, fb, auth)
             }
-            48 => {
+            48 | 53 | 54 => {
                 // reposition_liquidity_v2: withdraw all, re-range, deposit, net transfers
                 let fee = |r: &mut Rng| -> String {
                     if r.chance(1, 2) {
@@ -1122,7 +1122,7 @@ impl Hist {
                     _ => r.log_u128(70).max(1),
                 };
                 let auth = r.pick(&[0u8, 0, 0, 0, 0, 0, 1, 2]);
-                format!("H xrepo {} {} {} {} {} {} {} {}", id, nlo, nhi, new_liq, r.pick(&[0u8, 0, 1, 2]), fa, fb, auth)
+                format!("H xrepo {} {} {} {} {} {} {} {}", id, nlo, nhi, new_liq, r.pick(&[0u8, 0, 1, 2, 3, 4, 5]), fa, fb, auth)
             }
             49 if r.chance(1, 2) => {
                 // reward / protocol-fee instructions through the entrypoint
@@ -1151,7 +1151,7 @@ impl Hist {
                 format!("H xrew {} {} {} {} {} {} {} {}", kind, if r.chance(1, 2) { 1 } else { 2 }, idx, id, auth, value, fa, fb)
             }
             49 => format!("H upd {}", id),
-            50..=54 => format!("H cfees {}", id),
+            50..=52 => format!("H cfees {}", id),
             55..=57 => "H cproto".to_string(),
             58..=59 if wp.liquidity > 0 && (w.snap.is_none() || r.chance(1, 4)) => "H snap".to_string(),
             58..=63 => format!("H clock {}", w.now + r.pick(&[0u64, 1, 10, 100, 3600, 86400])),
